@@ -103,4 +103,7 @@ func c04(r *ev.Result, tier string) {
 		budget = 15 * time.Minute
 	}
 	exploreProfiles(r, budget, c04Profiles(isQuick(tier))...)
+	if !isQuick(tier) {
+		brokerRacePass(r)
+	}
 }
